@@ -504,7 +504,7 @@ def run(ctx):
             sc = json.load(open(os.path.join(cdir, f)))["scenario"]
             sc["id"] = 100000 + i
             scs.insert(0, sc)
-    results = C.pmap(run_scenario, [(sc, ctx.scratch) for sc in scs], nproc=8 if ctx.quick() else 12, job_timeout=180)
+    results = C.pmap(run_scenario, [(sc, ctx.scratch) for sc in scs], nproc=8 if ctx.quick() else 12, job_timeout=60)
     by_id = {sc["id"]: sc for sc in scs}
     # a scenario whose worker process crashed (segfault / abort in native code) or hung is a failing input of its own
     ncr = 0
